@@ -152,3 +152,166 @@ def sum_head_tuple_not_identifying(job: dict, cres: dict, v: dict) -> bool:
             if local and not local <= tup:
                 return True
     return False
+
+
+def _equality_cycle(stm) -> bool:
+    """true if the body of the statement contains equalities `V = t` (or `t = V`, `not V != t`) whose variables depend
+    on each other cyclically (V occurs in t, or V1 = t1(V2), V2 = t2(V1), ...)"""
+    from clingo.ast import ASTType, ComparisonOperator, Sign  # pylint: disable=import-outside-toplevel
+
+    import networkx as nx  # pylint: disable=import-outside-toplevel
+
+    def variables(node) -> set:
+        out: set = set()
+
+        def rec(n):
+            if hasattr(n, "ast_type"):
+                if n.ast_type == ASTType.Variable:
+                    out.add(n.name)
+                for key in n.child_keys:
+                    rec(getattr(n, key))
+            elif hasattr(n, "__iter__") and not isinstance(n, str):
+                for x in n:
+                    rec(x)
+
+        rec(node)
+        return out
+
+    if stm.ast_type not in (ASTType.Rule, ASTType.Minimize):
+        return False
+    graph = nx.DiGraph()
+    for lit in stm.body:
+        if lit.ast_type != ASTType.Literal or lit.atom.ast_type != ASTType.Comparison or len(lit.atom.guards) != 1:
+            continue
+        guard = lit.atom.guards[0]
+        if not ((lit.sign == Sign.NoSign and guard.comparison == ComparisonOperator.Equal)
+                or (lit.sign == Sign.Negation and guard.comparison == ComparisonOperator.NotEqual)):
+            continue
+        for var, term in ((lit.atom.term, guard.term), (guard.term, lit.atom.term)):
+            if var.ast_type == ASTType.Variable and var.name != "_":
+                if term.ast_type == ASTType.Variable:
+                    continue  # plain renaming
+                for other in variables(term):
+                    graph.add_edge(var.name, other)
+    try:
+        nx.find_cycle(graph)
+        return True
+    except nx.NetworkXNoCycle:
+        return False
+
+
+@matcher("inline_equality_cycle")
+def inline_equality_cycle(job: dict, cres: dict, v: dict) -> bool:
+    """the culprit stage (a caller of normalize.inline_arithmetic) got a statement whose equalities are cyclic
+    (X = X+1; or X = 2*Y, Y = X/2) and substituted one of them away"""
+    from vt.common import parse  # pylint: disable=import-outside-toplevel
+
+    removed, _ = removed_added(v)
+    for text in removed:
+        try:
+            stms = parse(text)
+        except RuntimeError:
+            continue
+        if any(_equality_cycle(s) for s in stms):
+            return True
+    return False
+
+
+@matcher("math_nonunit_elimination")
+def math_nonunit_elimination(job: dict, cres: dict, v: dict) -> bool:
+    """the math stage removed a variable that occurred under a multiplication/division/modulo/power/absolute value
+    in a comparison of the statement (solving c*Y = X for Y is not always possible over the integers)"""
+    from clingo.ast import ASTType, BinaryOperator, UnaryOperator  # pylint: disable=import-outside-toplevel
+
+    from vt.common import parse  # pylint: disable=import-outside-toplevel
+
+    nonlinear = (BinaryOperator.Multiplication, BinaryOperator.Division, BinaryOperator.Modulo, BinaryOperator.Power)
+
+    def walk(n, under: bool, acc_nl: set, acc_all: set):
+        if hasattr(n, "ast_type"):
+            if n.ast_type == ASTType.Variable:
+                acc_all.add(n.name)
+                if under:
+                    acc_nl.add(n.name)
+            here = under
+            if n.ast_type == ASTType.BinaryOperation and n.operator_type in nonlinear:
+                here = True
+            if n.ast_type == ASTType.UnaryOperation and n.operator_type == UnaryOperator.Absolute:
+                here = True
+            for key in n.child_keys:
+                walk(getattr(n, key), here, acc_nl, acc_all)
+        elif hasattr(n, "__iter__") and not isinstance(n, str):
+            for x in n:
+                walk(x, under, acc_nl, acc_all)
+
+    removed, added = removed_added(v)
+    nl: set = set()
+    allv: set = set()
+    kept: set = set()
+    try:
+        for text in removed:
+            for stm in parse(text):
+                walk(stm, False, nl, allv)
+        for text in added:
+            for stm in parse(text):
+                walk(stm, False, set(), kept)
+    except RuntimeError:
+        return False
+    return bool(nl - kept)
+
+
+@matcher("inline_unsafe_substitution")
+def inline_unsafe_substitution(job: dict, cres: dict, v: dict) -> bool:
+    """inline_rule substituted an equality and (a) the equalities were cyclic, or (b) the result is unsafe because the
+    substituted term contains an operation gringo cannot invert (|.|, *, /, \\, **) over a variable that the removed
+    equality or the replaced atom used to bind"""
+    from clingo.ast import ASTType, BinaryOperator, ComparisonOperator, Sign, UnaryOperator  # pylint: disable=import-outside-toplevel
+
+    from vt.common import parse  # pylint: disable=import-outside-toplevel
+
+    if inline_equality_cycle(job, cres, v):
+        return True
+    if v.get("kind") not in ("invalid_text", "invalid_ast"):
+        return False
+    bad_ops = (BinaryOperator.Multiplication, BinaryOperator.Division, BinaryOperator.Modulo, BinaryOperator.Power)
+
+    def noninvertible(term) -> bool:
+        found = []
+
+        def rec(n):
+            if hasattr(n, "ast_type"):
+                if n.ast_type == ASTType.BinaryOperation and n.operator_type in bad_ops:
+                    found.append(n)
+                if n.ast_type == ASTType.UnaryOperation and n.operator_type == UnaryOperator.Absolute:
+                    found.append(n)
+                for key in n.child_keys:
+                    rec(getattr(n, key))
+            elif hasattr(n, "__iter__") and not isinstance(n, str):
+                for x in n:
+                    rec(x)
+
+        rec(term)
+        return bool(found)
+
+    removed, _ = removed_added(v)
+    for text in removed:
+        try:
+            stms = parse(text)
+        except RuntimeError:
+            continue
+        for stm in stms:
+            if stm.ast_type not in (ASTType.Rule, ASTType.Minimize):
+                continue
+            for lit in stm.body:
+                if lit.ast_type != ASTType.Literal or lit.atom.ast_type != ASTType.Comparison:
+                    continue
+                if len(lit.atom.guards) != 1:
+                    continue
+                guard = lit.atom.guards[0]
+                if not ((lit.sign == Sign.NoSign and guard.comparison == ComparisonOperator.Equal)
+                        or (lit.sign == Sign.Negation and guard.comparison == ComparisonOperator.NotEqual)):
+                    continue
+                for var, term in ((lit.atom.term, guard.term), (guard.term, lit.atom.term)):
+                    if var.ast_type == ASTType.Variable and noninvertible(term):
+                        return True
+    return False
